@@ -5,6 +5,7 @@ import (
 	"go/token"
 	"go/types"
 	"sort"
+	"strings"
 
 	"golang.org/x/tools/go/ssa"
 )
@@ -247,4 +248,47 @@ func InFuncs(fs ...*ssa.Function) func(*ssa.Function) bool {
 		}
 		return false
 	}
+}
+
+// FrozenField reports whether a struct field is written only while its object is under construction: every store to
+// it (anywhere in the repository) goes through a pointer to an object allocated in the storing function, and its
+// address is never taken otherwise. Two loads of such a field from the same object denote the same value, whatever
+// happens between them. Map-, channel-, struct- and array-typed fields are never treated as frozen (their observable
+// state changes without a store to the field).
+func (p *Prog) FrozenField(f *types.Var) bool {
+	if f == nil {
+		return false
+	}
+	f = f.Origin()
+	if p.frozen == nil {
+		p.frozen = map[*types.Var]bool{}
+	}
+	if v, ok := p.frozen[f]; ok {
+		return v
+	}
+	ok := true
+	switch f.Type().Underlying().(type) {
+	case *types.Map, *types.Chan, *types.Struct, *types.Array:
+		ok = false
+	}
+	if ok && (f.Pkg() == nil || !strings.HasPrefix(f.Pkg().Path(), Mod)) {
+		ok = false
+	}
+	if ok {
+		for _, a := range p.FieldAccesses(f, p.AllRepoFuncs()) {
+			switch a.Kind {
+			case Write:
+				if al, isAlloc := a.Base.(*ssa.Alloc); !isAlloc || al.Parent() != a.Fn {
+					ok = false
+				}
+			case AddrTaken, MapWrite:
+				ok = false
+			}
+			if !ok {
+				break
+			}
+		}
+	}
+	p.frozen[f] = ok
+	return ok
 }
